@@ -24,6 +24,16 @@ from isobar.exceptions import TrackLimitReachedException, TrackNotFoundException
 BAD = 999  # velocity / value / program marker on which the recording device raises
 
 
+# what a failing device or pattern raises: any exception class (the ones the library catches around these calls for its
+# own reasons — TypeError, ValueError, KeyError, AttributeError — must propagate / be contained like every other)
+FAULT_CLASSES = (RuntimeError, TypeError, ValueError, KeyError, AttributeError, ZeroDivisionError, IndexError, OSError,
+                 AssertionError, OverflowError)
+
+
+def fault(site, a=0, b=0):
+    return FAULT_CLASSES[(len(site) + int(a) * 3 + int(b)) % len(FAULT_CLASSES)]("%s failed" % site)
+
+
 class DeviceFault(RuntimeError):
     pass
 
@@ -33,22 +43,24 @@ class RecDevice(OutputDevice):
         super().__init__()
         self.calls = []
 
-    def note_on(self, note=60, velocity=64, channel=0):
-        if velocity == BAD:
-            raise DeviceFault("note_on")
-        self.calls.append("on:%d:%d:%d" % (note, velocity, channel))
+    def note_on(self, note=60, velocity=64, channel=None):
+        # the fault is tied to the call as the track makes it (note, velocity, channel): the same note-on WITHOUT a channel
+        # would succeed — a track that retries a failed call in another form is heard as a spurious note-on
+        if velocity == BAD and channel is not None:
+            raise fault("note_on", note, channel)
+        self.calls.append("on:%d:%d:%d" % (note, velocity, 0 if channel is None else channel))
 
     def note_off(self, note=60, channel=0):
         self.calls.append("off:%d:%d" % (note, channel))
 
     def control(self, control=0, value=0, channel=0):
         if value == BAD:
-            raise DeviceFault("control")
+            raise fault("control", control, channel)
         self.calls.append("cc:%d:%d:%d" % (control, value, channel))
 
     def program_change(self, program=0, channel=0):
         if program == BAD:
-            raise DeviceFault("program_change")
+            raise fault("program_change", program, channel)
         self.calls.append("pc:%d:%d" % (program, channel))
 
 
@@ -82,7 +94,7 @@ class Lasso(Pattern):
         else:
             it = self.cyc[(self.pos - len(self.pre)) % len(self.cyc)]
         if it[0] == "patfault":
-            raise PatternFault("pattern evaluation failed")
+            raise fault("pattern evaluation", self.pos if hasattr(self, "pos") else 0)
         self.pos += 1
         return self.runner.make_event(it)
 
